@@ -235,6 +235,7 @@ class Rewriter:
         t = s('Rn.std', r'\(std::(min|max)\)\s*\(', r'VF_\1(', t)
         t = s('Rn.std', r'\bstd::(min|max)\s*\(', r'VF_\1(', t)
         t = s('Rn.numlim', r'\(std::numeric_limits<\s*(\w+)\s*>::max\)\s*\(\)', r'VF_NUMLIM_MAX_\1', t)
+        t = s('Rn.numlim', r'\(std::numeric_limits<\s*(\w+)\s*>::(min|lowest)\)\s*\(\)', r'VF_NUMLIM_\2_\1', t)
         t = s('Rn.numlim', r'\bstd::numeric_limits<\s*(\w+)\s*>::(max|lowest|min)\s*\(\)', r'VF_NUMLIM_\2_\1', t)
         t = s('Rn.isintegral', r'\bif\s+__auto_type\b', 'if', t)
         t = s('Rn.cmath', r'\bstd::(llabs|round|sqrt|fabs|ceil|floor|nearbyint|pow|log10|log2|exp2|log|exp|trunc|lround|ilogb|sin|cos|acos|atan2|isnan|move|swap)\b', r'\1', t)
